@@ -216,10 +216,17 @@ def dist_scaling(vc, cfg):
         vc.prove(f"alpha query is the offset from the neutral point[{r}]", vc.all_(vc.eq(Bq[r, k], bB[r, k] - center[0, k]) for k in range(dim)))
         vc.prove(f"requested total is the row total[{r}]", vc.eq(L[r], sum(exp)))
     alpha = vc.min_(*[al[r] for r in range(m)])
+    apos = vc.lemma("lemma:alpha>0", vc.gt(alpha, 0))
+    ale = [vc.lemma(f"lemma:alpha<=alpha_r[{r}]", vc.le(alpha, al[r])) for r in range(m)]
+    org = [vc.lemma(f"lemma:neutral point inside facet[{f}]", vc.le(Eq[f, dim], 0)) for f in range(nfac)]
     for r in range(m):
         for k in range(dim):
             vc.prove(f"one common factor alpha=min_r alpha_r[{r},{k}]: scaled offset == alpha * offset", vc.eq(Y[r, k] - center[0, k], alpha * (bB[r, k] - center[0, k])))
         for f in range(nfac):
+            # convexity as a generalisation cut: with s = E_f . offset,  a > 0, a <= A, A s + e <= 0, e <= 0  |-  a s + e <= 0
+            s_ = sum(Eq[f, k] * Bq[r, k] for k in range(dim))
+            h1 = vc.lemma(f"lemma:boundary point alpha_r*offset inside facet[{r},{f}]", vc.le(al[r] * s_ + Eq[f, dim], 0))
+            vc.prove_from(f"lemma:convexity(s)[{r},{f}]", vc.le(alpha * s_ + Eq[f, dim], 0), [apos, ale[r], h1, org[f]], [alpha, al[r], s_, Eq[f, dim]], lemma=True)
             vc.lemma(f"lemma:convexity[{r},{f}]", vc.le(sum(Eq[f, k] * (alpha * Bq[r, k]) for k in range(dim)) + Eq[f, dim], 0))
             vc.prove(f"scaled chromaticity inside facet[{r},{f}]", vc.le(sum(Eq[f, k] * (Y[r, k] - center[0, k]) for k in range(dim)) + Eq[f, dim], 0))
         if r == zero_row:
